@@ -1,8 +1,243 @@
 import Req.Driver.Proto
+import Req.Client.Url
+import Req.Driver.WireUtil
+import Req.Client.Merge
+import Req.H2.Fields
+import Req.H1.Origin
 /-! Driver lanes of C01. -/
 namespace Req.Driver.L.C01
 open Req.Proto
 
-def lanes : List (String × (List String → String)) := []
+/-- `k:v,k:v` (hex) or `-`. -/
+def decodePMap (s : String) : Option (List (Bytes × Bytes)) :=
+  if s == "-" then some [] else
+  (s.splitOn ",").mapM fun e =>
+    match e.splitOn ":" with
+    | [k, v] => do pure ((← decodeHex k), (← decodeHex v))
+    | _ => none
+
+/-- `k:v1:v2,k2,k3:v` (hex; a bare key has no values) or `-`. -/
+def decodeQMap (s : String) : Option (List (Bytes × List Bytes)) :=
+  if s == "-" then some [] else
+  (s.splitOn ",").mapM fun e =>
+    match e.splitOn ":" with
+    | k :: vs => do pure ((← decodeHex k), (← vs.mapM decodeHex))
+    | [] => none
+
+def b01 (b : Bool) : String := if b then "1" else "0"
+
+def showUrl (u : Req.Url.Url) : String :=
+  let user := match u.user with
+    | none => "-"
+    | some (n, none) => encodeHex n
+    | some (n, some p) => encodeHex n ++ ":" ++ encodeHex p
+  s!"ok scheme={encodeHex u.scheme} opaque={encodeHex u.opaq} user={user} host={encodeHex u.host} " ++
+  s!"path={encodeHex u.path} rawpath={encodeHex u.rawPath} omit={b01 u.omitHost} " ++
+  s!"fq={b01 u.forceQuery} rq={encodeHex u.rawQuery} frag={encodeHex u.fragment} " ++
+  s!"rawfrag={encodeHex u.rawFragment} ruri={encodeHex (Req.Url.requestURI u)}"
+
+def showUrlResult : Except Req.Url.Err Req.Url.Url → String
+  | .ok u => showUrl u
+  | .error _ => "err"
+
+/-- `c01url <rawURL> <rPath> <cPath> <cScheme> <baseURL> <cQuery> <rQuery>` -/
+def laneUrl : List String → String
+  | [raw, rp, cp, sch, base, cq, rq] =>
+    match decodeHex raw, decodePMap rp, decodePMap cp, decodeHex sch, decodeHex base,
+          decodeQMap cq, decodeQMap rq with
+    | some raw, some rp, some cp, some sch, some base, some cq, some rq =>
+      showUrlResult (Req.Url.parseRequestURL
+        { rawURL := raw, rPath := rp, cPath := cp, cScheme := sch, baseURL := base,
+          cQuery := cq, rQuery := rq })
+    | _, _, _, _, _, _, _ => "bad-op"
+  | _ => "bad-op"
+
+/-- `c01ruri …` (same arguments as `c01url`): only the request target an origin observes. -/
+def laneRuri : List String → String
+  | [raw, rp, cp, sch, base, cq, rq] =>
+    match decodeHex raw, decodePMap rp, decodePMap cp, decodeHex sch, decodeHex base,
+          decodeQMap cq, decodeQMap rq with
+    | some raw, some rp, some cp, some sch, some base, some cq, some rq =>
+      match Req.Url.parseRequestURL
+        { rawURL := raw, rPath := rp, cPath := cp, cScheme := sch, baseURL := base,
+          cQuery := cq, rQuery := rq } with
+      | .ok u => "ruri=" ++ encodeHex (Req.Url.requestURI u)
+      | .error _ => "err"
+    | _, _, _, _, _, _, _ => "bad-op"
+  | _ => "bad-op"
+
+/-- `c01valid <s>`: every validation / sanitising predicate of the request path on one string. -/
+def laneValid : List String → String
+  | [x] =>
+    match decodeHex x with
+    | some v =>
+      s!"method={b01 (Req.Validate.validMethod v)} name={b01 (Req.Validate.validHeaderFieldName v)} " ++
+      s!"value={b01 (Req.Validate.validHeaderFieldValue v)} host={b01 (Req.Validate.validHostHeader v)} " ++
+      s!"ctl={b01 (Req.BStr.containsCTL v)} close={b01 (Req.Validate.hasToken v Req.H1.sClose)} " ++
+      s!"san={encodeHex (Req.Validate.sanitizeValue v)} zone={encodeHex (Req.Validate.removeZone v)} " ++
+      s!"port={encodeHex (Req.Url.removeEmptyPort v)} excl2={b01 (Req.H2.isExcluded v)} " ++
+      s!"excl1={b01 (Req.H1.reqWriteExcludeHeader.contains v)} lacks={b01 (Req.H1.methodUsuallyLacksBody v)}"
+    | none => "bad-op"
+  | _ => "bad-op"
+
+/-- `c01origin <wire>`: the independent Lean origin `parseRequestH1` on a byte stream: method,
+target, Host, the other header lines (lower-cased names, sorted; framing fields dropped), body,
+length of what is left. -/
+def laneOrigin : List String → String
+  | [w] =>
+    match decodeHex w with
+    | none => "bad-op"
+    | some wire =>
+      match Req.H1.Origin.parseRequestH1 wire with
+      | none => "none"
+      | some (v, rest) =>
+        let isF (n : Bytes) : Bool :=
+          n == Req.H1.Origin.sTE || n == Req.H1.Origin.sCL || n == Req.H2.sHostL
+        let hosts := v.fields.filterMap fun f => if Req.Ascii.lower f.1 == Req.H2.sHostL then some f.2 else none
+        let lines := (v.fields.filter fun f => !isF (Req.Ascii.lower f.1)).map fun f =>
+          Req.Ascii.lower f.1 ++ [58, 32] ++ f.2
+        s!"ok {encodeHex v.method} {encodeHex v.target} {encodeList hosts} " ++
+          s!"{encodeList (lines.mergeSort fun a b => Req.BStr.le a b)} {Wire.showBlob v.body} {rest.length}"
+  | _ => "bad-op"
+
+/-- `c01chunks <body> <write sizes>`: `chunkedWriter` output for the given writes (zero-length
+writes emit nothing; what is left after the listed sizes is one last write) + final CRLF. -/
+def laneChunks : List String → String
+  | [body, sizes] =>
+    match Wire.decodeBody body, decodeNatList sizes with
+    | some b, some ss => "ok " ++ Wire.showBlob (Req.H1.chunkedBody b ss)
+    | _, _ => "bad-op"
+  | _ => "bad-op"
+
+/-- `c01parse <raw>`: `url.Parse` + `String()` + `RequestURI()`. -/
+def laneParse : List String → String
+  | [raw] =>
+    match decodeHex raw with
+    | some raw =>
+      match Req.Url.parse raw with
+      | .ok u => showUrl u ++ " str=" ++ encodeHex (Req.Url.toString u)
+      | .error _ => "err"
+    | none => "bad-op"
+  | _ => "bad-op"
+
+/-- `c01esc <mode> <s>`: escape, then unescape of the input itself. -/
+def laneEsc : List String → String
+  | [mode, s] =>
+    let m : Option Req.Pct.Mode := match mode with
+      | "path" => some .path | "seg" => some .pathSegment | "host" => some .host
+      | "zone" => some .zone | "user" => some .userPassword | "query" => some .queryComponent
+      | "frag" => some .fragment | _ => none
+    match m, decodeHex s with
+    | some m, some s =>
+      encodeHex (Req.Pct.escape m s) ++ " " ++
+        (match Req.Pct.unescape m s with
+         | some r => "ok:" ++ encodeHex r
+         | none => "err")
+    | _, _ => "bad-op"
+  | _ => "bad-op"
+
+def showWErr : Req.H1.WErr → String
+  | .nonAsciiHost => "err:outside"
+  | .invalidHostProxy => "err:hostproxy"
+  | .ctlInURI => "err:ctl"
+  | .contentLengthNilBody => "err:clnil"
+  | .bodyLength => "err:bodylen"
+
+/-- decode the common part of an H1 write case:
+`<method> <rawurl> <host> <hdr> <cl> <hasBody> <body> <reads> <close> <extra> <proxy> <rawQuery>`
+(`rawQuery`: `-` or a hex value assigned to `URL.RawQuery` after parsing). -/
+def decodeWReq : List String → Option Req.H1.WReq
+  | [m, raw, host, hdr, cl, hb, body, reads, close, extra, proxy, rq] => do
+    let m ← decodeHex m
+    let raw ← decodeHex raw
+    let host ← decodeHex host
+    let hdr ← Wire.decodeHdr hdr
+    let cl ← decodeInt cl
+    let hb ← Wire.decodeBool hb
+    let body ← Wire.decodeBody body
+    let reads ← decodeNatList reads
+    let close ← Wire.decodeBool close
+    let extra ← Wire.decodeHdr extra
+    let proxy ← Wire.decodeBool proxy
+    let rq ← if rq == "-" then pure none else (decodeHex rq).map some
+    match Req.Url.parse raw with
+    | .ok u0 =>
+      let u := match rq with
+        | some q => { u0 with rawQuery := q }
+        | none => u0
+      pure { method := m, url := u, host := host, header := hdr, contentLength := cl,
+                      hasBody := hb, body := body, reads := reads, close := close, extra := extra,
+                      usingProxy := proxy }
+    | .error _ => none
+  | _ => none
+
+/-- `c01h1 …`: bytes of `persistConn.writeRequest`. Exact in normal mode; in header-order mode
+(where unlisted keys keep Go's map order) the canonical form of `Wire.showOrdered`. -/
+def laneH1 (args : List String) : String :=
+  match decodeWReq args with
+  | none => "bad-op"
+  | some r =>
+    match Req.H1.serializeH1 r with
+    | .error e => showWErr e
+    | .ok wire =>
+      let order := Req.H1.orderList r.header
+      if order.isEmpty then "ok " ++ Wire.showBlob wire
+      else Wire.showOrdered wire order
+
+/-- cookies: `name:value:q,…` (hex, q = 0/1) or `-`. -/
+def decodeCookies (s : String) : Option (List Req.Merge.Cookie) :=
+  if s == "-" then some [] else
+  (s.splitOn ",").mapM fun e =>
+    match e.splitOn ":" with
+    | [n, v, q] => do pure { name := (← decodeHex n), value := (← decodeHex v), quoted := (← Wire.decodeBool q) }
+    | _ => none
+
+def encodeHdr (h : List Req.HeaderSort.KV) : String :=
+  if h.isEmpty then "-" else
+  ",".intercalate (h.map fun kv => ":".intercalate (encodeHex kv.key :: kv.values.map encodeHex))
+
+/-- `c01pipe <method> <rawURL> <rPath> <cPath> <cScheme> <baseURL> <cQuery> <rQuery> <cHdr|nil> <rHdr>
+<cCookies> <rCookies> <bodyKind none|bytes|reader> <body> <allowGet>` → the `*http.Request` that
+`Client.roundTrip` hands to the transport. -/
+def lanePipe : List String → String
+  | [m, raw, rp, cp, sch, base, cq, rq, ch, rh, cc, rc, bk, body, ag] =>
+    let ch? : Option (Option (List Req.HeaderSort.KV)) :=
+      if ch == "nil" then some none else (Wire.decodeHdr ch).map some
+    match decodeHex m, decodeHex raw, decodePMap rp, decodePMap cp, decodeHex sch, decodeHex base,
+          decodeQMap cq, decodeQMap rq, ch?, Wire.decodeHdr rh, decodeCookies cc, decodeCookies rc,
+          Wire.decodeBody body, Wire.decodeBool ag with
+    | some m, some raw, some rp, some cp, some sch, some base, some cq, some rq, some ch, some rh,
+      some cc, some rc, some body, some ag =>
+      let bs? : Option Req.Merge.BodySpec :=
+        if bk == "none" then some .none else if bk == "bytes" then some (.bytes body)
+        else if bk == "reader" then some (.reader body) else none
+      match bs? with
+      | none => "bad-op"
+      | some bs =>
+        let api : Req.Merge.Api :=
+          { method := m,
+            url := { rawURL := raw, rPath := rp, cPath := cp, cScheme := sch, baseURL := base,
+                     cQuery := cq, rQuery := rq },
+            cHeaders := ch, rHeaders := rh, cCookies := cc, rCookies := rc, body := bs,
+            allowGetPayload := ag }
+        match Req.Merge.buildRequest api with
+        | .error _ => "err"
+        | .ok r =>
+          showUrl r.url ++ s!" m={encodeHex r.method} host={encodeHex r.host} hdr={encodeHdr r.header} " ++
+            s!"cl={r.contentLength} hasbody={b01 r.hasBody} " ++ Wire.showBlob r.body
+    | _, _, _, _, _, _, _, _, _, _, _, _, _, _ => "bad-op"
+  | _ => "bad-op"
+
+def lanes : List (String × (List String → String)) := [
+  ("c01pipe", lanePipe),
+  ("c01h1", laneH1),
+  ("c01url", laneUrl),
+  ("c01chunks", laneChunks),
+  ("c01origin", laneOrigin),
+  ("c01valid", laneValid),
+  ("c01ruri", laneRuri),
+  ("c01parse", laneParse),
+  ("c01esc", laneEsc)
+]
 
 end Req.Driver.L.C01
